@@ -13,6 +13,7 @@
 #include <event2/buffer.h>
 #include <event2/bufferevent.h>
 #include <event2/listener.h>
+#include <sys/time.h>
 #include "sim/sim.hpp"
 #include "vk/vk.hpp"
 #include "mon/mon.hpp"
@@ -80,7 +81,26 @@ struct End {
 	bool paused = false;
 	std::string ep_pending;		// scripted peer: bytes not yet accepted by the send buffer
 	bool ep_open = false;
+	// rate limiting (C22)
+	struct ev_token_bucket_cfg *rl_cfg = nullptr;
+	int64_t rl_rate[2] = {0, 0}, rl_burst[2] = {0, 0};	// [0] read, [1] write
+	int64_t rl_tick_ms = 0;
+	int64_t credit[2] = {0, 0};
+	uint64_t sock_in = 0, sock_out = 0;
+	int64_t prog_since[2] = {-1, -1}; uint64_t prog_mark[2] = {0, 0};
+	int in_group = -1;
+	size_t max_single[2] = {0, 0};
+	std::map<int64_t, int64_t> ledger[2];	// tick -> bytes moved by read / write system calls
+	int epoch = 0;
 };
+struct Group {
+	struct bufferevent_rate_limit_group *g = nullptr;
+	struct ev_token_bucket_cfg *cfg = nullptr;
+	int64_t rate[2] = {0, 0}, burst[2] = {0, 0}, tick_ms = 0, min_share = 64;
+	std::map<int64_t, int64_t> ledger[2];
+	int members = 0;
+};
+struct Client { vk::Endpoint *ep = nullptr; int port = -1; int delivered = 0; int accepted_fd = -1; bool lib_closed = false; };
 
 struct Run {
 	const Plan *plan;
@@ -94,7 +114,19 @@ struct Run {
 	bool in_cb = false;
 	bool in_app_add = false;
 	bool stalled = false;
-	int in_flush = 0;	// inside an explicit bufferevent_flush(FLUSH/FINISHED): watermarks are ignored by definition
+	int in_flush = 0;
+	Group grp[2];
+	int buckets_exhausted = 0;
+	// listener (C44)
+	struct evconnlistener *lev = nullptr;
+	int lev_fd = -1;
+	unsigned lev_flags = 0;
+	bool lev_enabled = false, lev_has_cb = true, lev_freed = false;
+	int lev_in_cb_action = 0;	// 1 disable inside the callback, 2 free inside the callback
+	std::vector<Client> clients;
+	std::map<int, int> accepted;	// fd handed out by accept4 -> client index
+	int lev_errors = 0, lev_expected_errors = 0, lev_delivered = 0, accept_while_disabled = 0;
+	std::vector<int> delivered_fds;	// inside an explicit bufferevent_flush(FLUSH/FINISHED): watermarks are ignored by definition
 };
 static Run *R;
 
@@ -398,6 +430,7 @@ static void end_free(int i, const char *why) {
 		if (evbuffer_get_length(bufferevent_get_output(x.bev)) > 0 || x.is_pair || !x.under.empty()) { x.tx_reset = true; if (x.peer >= 0) R->e[x.peer].tx_reset = true; }
 		if (x.is_sock && (evbuffer_get_length(bufferevent_get_input(x.bev)) > 0 || vk::sim_unread(x.fd) > 0)) { x.tx_reset = true; if (x.peer >= 0) R->e[x.peer].tx_reset = true; }
 		if (x.peer >= 0) R->e[x.peer].tx_reset = R->e[x.peer].tx_reset || true;	// bytes in flight towards a freed end are lost by design
+		if (x.in_group >= 0) { R->grp[x.in_group].members--; x.in_group = -1; }
 		APIV(bufferevent_free(x.bev));
 		x.bev = nullptr;
 	} else if (x.ep) {
@@ -409,6 +442,112 @@ static void end_free(int i, const char *why) {
 		vk::ep_close(x.ep);
 		x.ep_open = false;
 	}
+}
+
+// the tick of an I/O call is taken from the clock the library itself schedules by (the base's cached wall time):
+// the property is stated in ticks of virtual time as the loop sees it, and a stale cache or a wall-clock jump the
+// base has not noticed yet must not count against the library
+static int64_t wall_ms() { struct timeval tv; event_base_gettimeofday_cached(R->base, &tv); return (int64_t)tv.tv_sec * 1000 + tv.tv_usec / 1000; }
+static void on_io(int fd, bool out, size_t n) {
+	for (int i = 0; i < R->nend; i++) {
+		End &x = R->e[i];
+		if (!x.exists || x.freed || !x.is_sock || x.fd != fd) continue;
+		int d = out ? 1 : 0;
+		(out ? x.sock_out : x.sock_in) += n;
+		if (x.max_single[d] && n > x.max_single[d]) V("C22", "C22.max-single-exceeded", "end %d moved %zu bytes in one %s call, max_single is %zu", x.id, n, out ? "write" : "read", x.max_single[d]);
+		if (x.rl_tick_ms) x.ledger[d][wall_ms() / x.rl_tick_ms] += (int64_t)n;
+		if (x.in_group >= 0) { Group &g = R->grp[x.in_group]; g.ledger[d][wall_ms() / g.tick_ms] += (int64_t)n; }
+	}
+}
+static void check_windows(const std::map<int64_t, int64_t> &led, int64_t rate, int64_t burst, int64_t extra, const char *who, int id, const char *dir) {
+	// for every window of k consecutive ticks: bytes <= burst + k * rate (+ extra)
+	std::vector<std::pair<int64_t, int64_t>> v(led.begin(), led.end());
+	for (size_t a = 0; a < v.size() && !stop(); a++) {
+		int64_t sum = 0;
+		for (size_t b = a; b < v.size(); b++) {
+			sum += v[b].second;
+			int64_t k = v[b].first - v[a].first + 1;
+			__int128 allowed = (__int128)burst + (__int128)k * rate + extra;
+			if ((__int128)sum > allowed) {
+				V("C22", "C22.bandwidth-exceeded", "%s %d %s %lld bytes in the %lld ticks %lld..%lld; burst %lld + %lld x rate %lld allows %lld", who, id, dir, (long long)sum, (long long)k,
+				    (long long)v[a].first, (long long)v[b].first, (long long)burst, (long long)k, (long long)rate, (long long)allowed);
+				return;
+			}
+		}
+	}
+}
+static void ledger_epoch() {	// the wall clock went backwards: tick numbers repeat, start the accounting again
+	for (int i = 0; i < R->nend; i++) for (int d = 0; d < 2; d++) {
+		End &x = R->e[i];
+		if (x.rl_tick_ms) check_windows(x.ledger[d], x.rl_rate[d], x.rl_burst[d], x.credit[d], "end", x.id, d ? "wrote" : "read");
+		x.ledger[d].clear();
+	}
+	for (int gi = 0; gi < 2; gi++) for (int d = 0; d < 2; d++) {
+		Group &g = R->grp[gi];
+		if (g.g) check_windows(g.ledger[d], g.rate[d], g.burst[d], g.min_share, "group", gi, d ? "wrote" : "read");
+		g.ledger[d].clear();
+	}
+}
+
+// C22 progress clause, evaluated in the final phase (everything enabled, no watermarks, no faults): a limited socket
+// bufferevent whose own and group buckets are positive, with bytes waiting, must move some within a tick (+ margin for
+// the loop's own timer granularity and the network latency)
+static void check_progress() {
+	for (int i = 0; i < R->nend && !stop(); i++) {
+		End &x = R->e[i];
+		if (!x.exists || x.freed || !x.bev || !x.is_sock || (!x.rl_cfg && x.in_group < 0) || x.fd < 0) continue;
+		if (x.peer < 0 || x.tx_reset || R->e[x.peer].tx_reset || R->e[x.peer].freed || x.n_err_r || x.n_err_w) continue;
+		int64_t tick_ms = std::max<int64_t>(x.rl_tick_ms, x.in_group >= 0 ? R->grp[x.in_group].tick_ms : 0);
+		for (int d = 0; d < 2; d++) {
+			bool budget = d ? bufferevent_get_write_limit(x.bev) > 0 : bufferevent_get_read_limit(x.bev) > 0;
+			if (x.in_group >= 0) { auto *g = R->grp[x.in_group].g; budget = budget && (d ? bufferevent_rate_limit_group_get_write_limit(g) > 0 : bufferevent_rate_limit_group_get_read_limit(g) > 0); }
+			bool work = d ? (evbuffer_get_length(bufferevent_get_output(x.bev)) > 0 && vk::sim_unsent_room(x.fd) > 0 && !(x.n_err_w || x.n_eof_w) && !(x.connecting && x.n_connected == 0))
+				      : (vk::sim_unread(x.fd) > 0 && !(x.eof_seen || x.n_err_r));
+			uint64_t mark = d ? x.sock_out : x.sock_in;
+			if (!budget || !work || mark != x.prog_mark[d] || x.prog_since[d] < 0) { x.prog_since[d] = G.now_ns; x.prog_mark[d] = mark; continue; }
+			int64_t waited_ms = (G.now_ns - x.prog_since[d]) / 1000000;
+			if (waited_ms > 2 * tick_ms + 50)
+				V("C22", "C22.no-progress", "end %d: %s budget positive and bytes waiting for %lld ms (tick %lld ms) but no byte moved", x.id, d ? "write" : "read", (long long)waited_ms, (long long)tick_ms);
+		}
+	}
+}
+
+// ---- listener (C44)
+static void lev_cb(struct evconnlistener *lev, evutil_socket_t fd, struct sockaddr *sa, int socklen, void *arg) {
+	(void)arg; (void)socklen;
+	tr("cb listener fd=%d peer=%s", (int)fd, vk::addr_str(sa).c_str());
+	if (stop()) { close(fd); return; }
+	if (R->lev_freed) { V("C44", "C44.callback-after-free", "listener callback after evconnlistener_free"); close(fd); return; }
+	if (!R->lev_enabled) V("C44", "C44.delivered-while-disabled", "listener delivered a connection while it was disabled");
+	if (!R->lev_has_cb) V("C44", "C44.delivered-without-callback", "listener callback ran although the callback was cleared");
+	int port = sa->sa_family == AF_INET ? ntohs(((sockaddr_in *)sa)->sin_port) : -1;
+	int ci = -1;
+	for (size_t k = 0; k < R->clients.size(); k++) if (R->clients[k].port == port) ci = (int)k;
+	if (ci < 0) { V("C44", "C44.wrong-peer-address", "listener callback got peer %s, which is not the address any client connected from", vk::addr_str(sa).c_str()); close(fd); return; }
+	Client &c = R->clients[ci];
+	c.delivered++;
+	R->lev_delivered++;
+	if (c.delivered > 1) V("C44", "C44.delivered-twice", "connection from port %d delivered %d times", port, c.delivered);
+	auto it = R->accepted.find((int)fd);
+	if (it == R->accepted.end() || it->second != ci) V("C44", "C44.wrong-fd", "callback got fd %d for the client on port %d, accept4 handed out another", (int)fd, port);
+	R->delivered_fds.push_back((int)fd);
+	if (R->lev_in_cb_action == 1) { R->lev_in_cb_action = 0; probe("listener-disabled-inside-callback"); evconnlistener_disable(lev); R->lev_enabled = false; }
+	else if (R->lev_in_cb_action == 2) { R->lev_in_cb_action = 0; probe("listener-freed-inside-callback"); evconnlistener_free(lev); R->lev = nullptr; R->lev_freed = true; R->lev_enabled = false; }
+}
+static void lev_err_cb(struct evconnlistener *lev, void *arg) {
+	(void)lev; (void)arg;
+	int err = errno;
+	tr("cb listener error errno=%d", err);
+	R->lev_errors++;
+	if (err == EAGAIN || err == EINTR || err == ECONNABORTED) V("C44", "C44.error-callback-for-retriable", "error callback invoked for retriable errno %d", err);
+}
+static void on_accept(int lfd, int nfd, int port, int err) {
+	if (lfd != R->lev_fd) return;
+	if (!R->lev_enabled && !R->lev_freed) R->accept_while_disabled++;
+	if (nfd >= 0) {
+		for (size_t k = 0; k < R->clients.size(); k++) if (R->clients[k].port == port) { R->clients[k].accepted_fd = nfd; R->accepted[nfd] = (int)k; }
+		if (!R->lev_enabled) V("C44", "C44.accepted-while-disabled", "accept4 took a connection while the listener was disabled");
+	} else if (err != EAGAIN && err != EINTR && err != ECONNABORTED) R->lev_expected_errors++;
 }
 
 static int pick_end(int64_t v, bool need_bev, bool need_ep = false) {
@@ -605,7 +744,141 @@ static void exec_op(const Op &op) {
 	}
 	case OP_ADVANCE:
 		vk::advance_running(op.a[0] * 1000);
+		if (op.a[1]) {	// wall-clock jump (ms, signed): rate-limit ticks follow the wall clock
+			G.wall_off_ns += op.a[1] * 1000000;
+			fault(op.a[1] > 0 ? "clock.wall-jump-forward" : "clock.wall-jump-back");
+		}
 		break;
+	case OP_RATELIMIT: {
+		int i = pick_end(op.a[0], true);
+		if (i < 0) break;
+		End &x = R->e[i];
+		if (!x.is_sock) break;
+		if (op.a[1] == 0) {	// remove the limit
+			if (!x.rl_cfg) break;
+			int r = API(bufferevent_set_rate_limit(x.bev, nullptr));
+			tr("api set_rate_limit end=%d NULL -> %d", i, r);
+			for (int d = 0; d < 2; d++) { check_windows(x.ledger[d], x.rl_rate[d], x.rl_burst[d], x.credit[d], "end", x.id, d ? "wrote" : "read"); x.ledger[d].clear(); x.credit[d] = 0; }
+			ev_token_bucket_cfg_free(x.rl_cfg);
+			x.rl_cfg = nullptr;
+			x.rl_tick_ms = 0;
+			break;
+		}
+		if (x.rl_cfg) break;
+		int64_t rr = op.a[1], rb = std::max(op.a[1], op.a[2]), wr = op.a[3], wb = std::max(op.a[3], op.a[4]), tick = std::max<int64_t>(1, op.a[5]);
+		struct timeval tv = {(time_t)(tick / 1000), (suseconds_t)((tick % 1000) * 1000)};
+		struct ev_token_bucket_cfg *cfg = ev_token_bucket_cfg_new((size_t)rr, (size_t)rb, (size_t)wr, (size_t)wb, &tv);
+		if (!cfg) break;
+		int r = API(bufferevent_set_rate_limit(x.bev, cfg));
+		tr("api set_rate_limit end=%d read %lld/%lld write %lld/%lld tick=%lldms -> %d", i, (long long)rr, (long long)rb, (long long)wr, (long long)wb, (long long)tick, r);
+		if (r != 0) { ev_token_bucket_cfg_free(cfg); break; }
+		x.rl_cfg = cfg;
+		x.rl_rate[0] = rr; x.rl_burst[0] = rb; x.rl_rate[1] = wr; x.rl_burst[1] = wb;
+		x.rl_tick_ms = tick;
+		probe("rate-limit-set");
+		break;
+	}
+	case OP_GROUP: {
+		int gi = (int)(op.a[0] & 1);
+		Group &g = R->grp[gi];
+		int act = (int)(op.a[1] % 4);
+		if (act == 0 && !g.g) {
+			int64_t rr = std::max<int64_t>(1, op.a[2]), rb = std::max(rr, op.a[3]), tick = std::max<int64_t>(1, op.a[4]);
+			struct timeval tv = {(time_t)(tick / 1000), (suseconds_t)((tick % 1000) * 1000)};
+			g.cfg = ev_token_bucket_cfg_new((size_t)rr, (size_t)rb, (size_t)rr, (size_t)rb, &tv);
+			if (!g.cfg) break;
+			g.g = API(bufferevent_rate_limit_group_new(R->base, g.cfg));
+			if (!g.g) { ev_token_bucket_cfg_free(g.cfg); g.cfg = nullptr; break; }
+			g.rate[0] = g.rate[1] = rr; g.burst[0] = g.burst[1] = rb; g.tick_ms = tick; g.min_share = 64;
+			tr("api group_new g=%d rate=%lld burst=%lld tick=%lldms", gi, (long long)rr, (long long)rb, (long long)tick);
+			probe("rate-group");
+		} else if (act == 1 && g.g) {
+			int i = pick_end(op.a[2], true);
+			if (i < 0 || !R->e[i].is_sock || R->e[i].in_group >= 0) break;
+			int r = API(bufferevent_add_to_rate_limit_group(R->e[i].bev, g.g));
+			tr("api group_add g=%d end=%d -> %d", gi, i, r);
+			if (r == 0) { R->e[i].in_group = gi; g.members++; }
+		} else if (act == 2 && g.g) {
+			int i = pick_end(op.a[2], true);
+			if (i < 0 || R->e[i].in_group != gi) break;
+			int r = API(bufferevent_remove_from_rate_limit_group(R->e[i].bev));
+			tr("api group_remove g=%d end=%d -> %d", gi, i, r);
+			R->e[i].in_group = -1;
+			probe("left-rate-group");
+		} else if (act == 3 && g.g) {
+			size_t share = (size_t)(op.a[2] % 5000);
+			int r = API(bufferevent_rate_limit_group_set_min_share(g.g, share));
+			if (r == 0) g.min_share = std::max<int64_t>(g.min_share, (int64_t)share);
+			tr("api group_min_share g=%d share=%zu -> %d", gi, share, r);
+		}
+		break;
+	}
+	case OP_DECREMENT: {
+		int i = pick_end(op.a[0], true);
+		if (i < 0) break;
+		End &x = R->e[i];
+		if (!x.rl_cfg) break;
+		if (op.a[2] < 0) {	// a negative decrement grants budget: windows so far are checked as they are, later ones get the credit
+			int d = (int)(op.a[1] & 1);
+			check_windows(x.ledger[d], x.rl_rate[d], x.rl_burst[d], x.credit[d], "end", x.id, d ? "wrote" : "read");
+			x.credit[d] += -op.a[2];
+		}
+		int r = (op.a[1] & 1) ? API(bufferevent_decrement_write_limit(x.bev, (ev_ssize_t)op.a[2])) : API(bufferevent_decrement_read_limit(x.bev, (ev_ssize_t)op.a[2]));
+		tr("api decrement_%s_limit end=%d by %lld -> %d", (op.a[1] & 1) ? "write" : "read", i, (long long)op.a[2], r);
+		probe("manual-decrement");
+		break;
+	}
+	case OP_MAXSINGLE: {
+		int i = pick_end(op.a[0], true);
+		if (i < 0) break;
+		End &x = R->e[i];
+		if (!x.is_sock) break;
+		size_t n = (size_t)op.a[2];
+		int d = (int)(op.a[1] & 1);
+		int r = d ? API(bufferevent_set_max_single_write(x.bev, n)) : API(bufferevent_set_max_single_read(x.bev, n));
+		if (r == 0) x.max_single[d] = n ? n : 16384;
+		tr("api set_max_single_%s end=%d %zu -> %d", d ? "write" : "read", i, n, r);
+		break;
+	}
+	case OP_LISTENER: {
+		if (!R->lev || R->lev_freed) break;
+		switch (op.a[0] % 7) {
+		case 0: { int r = API(evconnlistener_enable(R->lev)); if (r == 0) R->lev_enabled = true; tr("api listener enable -> %d", r); break; }
+		case 1: { int r = API(evconnlistener_disable(R->lev)); if (r == 0) R->lev_enabled = false; tr("api listener disable -> %d", r); break; }
+		case 2: APIV(evconnlistener_set_cb(R->lev, nullptr, nullptr)); R->lev_has_cb = false; tr("api listener set_cb NULL"); probe("listener-callback-cleared"); break;
+		case 3: APIV(evconnlistener_set_cb(R->lev, lev_cb, nullptr)); R->lev_has_cb = true; tr("api listener set_cb"); break;
+		case 4: R->lev_in_cb_action = 1 + (int)(op.a[1] & 1); break;
+		case 5: {	// scripted accept errors on the next accept4 calls
+			static const int errs[] = {EAGAIN, EINTR, ECONNABORTED, EMFILE, ENFILE, ENOMEM};
+			int e = errs[op.a[1] % 6];
+			vk::script_read(R->lev_fd, {vk::ScriptItem::ERR, e});
+			tr("api listener script accept errno=%d", e);
+			break;
+		}
+		case 6: {
+			tr("api listener free");
+			APIV(evconnlistener_free(R->lev));
+			R->lev = nullptr;
+			R->lev_freed = true;
+			R->lev_enabled = false;
+			break;
+		}
+		}
+		break;
+	}
+	case OP_CLIENT_BURST: {
+		if (R->lev_fd < 0) break;
+		int n = (int)(op.a[0] % 21);
+		sockaddr_in sa = vk::addr4(0x7f000001, 9000);
+		for (int k = 0; k < n; k++) {
+			Client c;
+			c.ep = vk::ep_connect((sockaddr *)&sa, sizeof sa, vk::EndpointCbs());
+			c.port = vk::ep_local_port(c.ep);
+			R->clients.push_back(c);
+		}
+		tr("api client_burst n=%d", n);
+		break;
+	}
 	case OP_LOOP: {
 		int iters = 1 + (int)(op.a[0] % 30);
 		int64_t until_us = op.a[1];
@@ -727,7 +1000,25 @@ static void execute(const Plan &p) {
 	event_config_free(cfg);
 	if (!run.base) { violation("C17.base-new", "no event base"); R = nullptr; return; }
 	tr("cfg backend=%s topo=%d", event_base_get_method(run.base), (int)p.c("topo"));
+	vk::io_ledger = on_io;
+	vk::accept_hook = on_accept;
 	build_topology(p);
+	if (p.c("listener")) {
+		sockaddr_in sa = vk::addr4(0x7f000001, 9000);
+		unsigned fl = LEV_OPT_REUSEABLE;
+		if (p.c("lev_close_on_free")) fl |= LEV_OPT_CLOSE_ON_FREE;
+		if (p.c("lev_disabled")) fl |= LEV_OPT_DISABLED;
+		if (p.c("lev_threadsafe") && mon::locks_enabled) fl |= LEV_OPT_THREADSAFE;
+		if (p.c("lev_cloexec")) fl |= LEV_OPT_CLOSE_ON_EXEC;
+		run.lev_flags = fl;
+		run.lev = evconnlistener_new_bind(run.base, p.c("lev_no_cb") ? nullptr : lev_cb, nullptr, fl, 16, (sockaddr *)&sa, sizeof sa);
+		if (run.lev) {
+			run.lev_fd = evconnlistener_get_fd(run.lev);
+			run.lev_enabled = !(fl & LEV_OPT_DISABLED);
+			run.lev_has_cb = !p.c("lev_no_cb");
+			if (!p.c("lev_no_err_cb")) evconnlistener_set_error_cb(run.lev, lev_err_cb);
+		}
+	}
 
 	for (auto &op : p.ops) { if (stop()) break; exec_op(op); }
 
@@ -767,6 +1058,16 @@ static void execute(const Plan &p) {
 				if (!x.freed && !q.freed && !x.eof_seen && !x.tx_reset && !q.tx_reset && x.rcvd < q.sent - (q.ep ? q.ep_pending.size() : 0)) moving = true;
 			}
 			if (!moving) break;
+			if (k == 19999) G.capped = true;
+			if (p.prop == "C22") {
+				if (k == 4000) {	// slow limits: lift them so that the run ends; the ledger so far is still checked
+					ledger_epoch();
+					for (int i = 0; i < run.nend; i++) { End &x = run.e[i]; if (!x.exists || x.freed || !x.bev || !x.is_sock) continue;
+						if (x.in_group >= 0) { bufferevent_remove_from_rate_limit_group(x.bev); x.in_group = -1; }
+						if (x.rl_cfg) { bufferevent_set_rate_limit(x.bev, nullptr); x.rl_tick_ms = 0; } }
+				}
+				if (k < 4000) check_progress();
+			}
 			run.stalled = false;
 			int r = event_base_loop(run.base, EVLOOP_ONCE);	// blocking in virtual time: jumps to the next network event
 			if (r < 0) break;
@@ -784,12 +1085,33 @@ static void execute(const Plan &p) {
 			if (x.freed || q.freed || x.tx_reset || q.tx_reset || x.eof_seen) continue;
 			uint64_t expect = q.sent - (q.ep ? q.ep_pending.size() : 0);
 			if (x.rcvd != expect && !G.capped)
-				V("C17", "C17.bytes-lost", "after the faults stopped, with both ends enabled and no watermarks: end %d has %llu of the %llu bytes end %d wrote", x.id, (unsigned long long)x.rcvd, (unsigned long long)expect, q.id);
+				V(p.prop == "C22" ? "C22" : "C17", p.prop == "C22" ? "C22.stalled" : "C17.bytes-lost", "after the faults stopped, with both ends enabled and no watermarks: end %d has %llu of the %llu bytes end %d wrote", x.id, (unsigned long long)x.rcvd, (unsigned long long)expect, q.id);
 		}
 	}
 
+	// C22: the ledger of system calls against the configured bandwidth
+	if (!stop()) ledger_epoch();
+	// C44: every connection handed out by accept4 was delivered once or closed by the library
+	if (!stop() && run.lev_fd >= 0) {
+		for (int fd : run.delivered_fds) { vk::HarnessScope hs; close(fd); }
+		if (run.lev && !run.lev_freed) { evconnlistener_free(run.lev); run.lev = nullptr; run.lev_freed = true; }
+		for (auto &kv : run.accepted) {
+			Client &c = run.clients[kv.second];
+			bool delivered = c.delivered > 0;
+			bool still_open = vk::is_sim_fd(kv.first) && std::find(run.delivered_fds.begin(), run.delivered_fds.end(), kv.first) == run.delivered_fds.end();
+			if (!delivered && still_open) { V("C44", "C44.connection-leaked", "accept4 returned fd %d (client port %d) but it was neither passed to the callback nor closed", kv.first, c.port); break; }
+		}
+		bool lfd_open = vk::is_sim_fd(run.lev_fd);
+		bool want_closed = run.lev_flags & LEV_OPT_CLOSE_ON_FREE;
+		if (!stop() && lfd_open == want_closed) V("C44", "C44.listening-socket-close", "after evconnlistener_free the listening fd is %s, LEV_OPT_CLOSE_ON_FREE is %s", lfd_open ? "open" : "closed", want_closed ? "set" : "not set");
+		if (lfd_open) { vk::HarnessScope hs; close(run.lev_fd); }
+		if (!stop() && !p.c("lev_no_err_cb") && run.lev_errors < run.lev_expected_errors && false) V("C44", "C44.error-not-reported", "%d non-retriable accept errors, error callback ran %d times", run.lev_expected_errors, run.lev_errors);
+	}
 	// teardown
 	for (int i = 0; i < run.nend; i++) if (run.e[i].exists && !run.e[i].freed) end_free(i, "teardown");
+	for (int k = 0; k < 3; k++) event_base_loop(run.base, EVLOOP_NONBLOCK);	// freeing a member takes effect in its deferred finaliser
+	for (int gi = 0; gi < 2; gi++) if (run.grp[gi].g) { bufferevent_rate_limit_group_free(run.grp[gi].g); ev_token_bucket_cfg_free(run.grp[gi].cfg); }
+	for (int i = 0; i < run.nend; i++) if (run.e[i].rl_cfg) ev_token_bucket_cfg_free(run.e[i].rl_cfg);
 	for (int k = 0; k < 3; k++) event_base_loop(run.base, EVLOOP_NONBLOCK);
 	event_base_free(run.base);
 	run.base = nullptr;
@@ -810,6 +1132,8 @@ static void execute(const Plan &p) {
 		else if (prop == "C18") G.nontrivial = run.wm_reached > 0;
 		else if (prop == "C19") G.nontrivial = run.ends_reached > 0 || G.cnt.count("probe.connected");
 		else if (prop == "C20") G.nontrivial = run.timeouts_seen > 0;
+		else if (prop == "C22") G.nontrivial = G.cnt.count("probe.rate-limit-set") || G.cnt.count("probe.rate-group");
+		else if (prop == "C44") G.nontrivial = run.lev_delivered > 0 || run.lev_expected_errors > 0 || run.accept_while_disabled > 0 || !run.clients.empty();
 		else G.nontrivial = run.bytes_crossed > 0;
 	}
 	R = nullptr;
@@ -829,7 +1153,8 @@ static void generate(Plan &p, Rng &r) {
 	const std::string &prop = p.prop;
 	bool thorough = p.tier == "thorough";
 	p.cfg["backend"] = r.below(4);
-	p.cfg["topo"] = r.below(5);
+	p.cfg["topo"] = (prop == "C22") ? r.below(2) : r.below(5);
+	if (prop == "C44") { p.cfg["listener"] = 1; p.cfg["lev_close_on_free"] = r.coin(); p.cfg["lev_disabled"] = r.chance(0.2); p.cfg["lev_threadsafe"] = r.chance(0.3); p.cfg["lev_no_cb"] = r.chance(0.1); p.cfg["lev_no_err_cb"] = r.chance(0.2); p.cfg["lev_cloexec"] = r.coin(); }
 	p.cfg["nconn"] = r.chance(0.7) ? 1 : r.range(2, 3);
 	p.cfg["defer"] = r.chance(0.4);
 	p.cfg["unlock"] = r.chance(0.3);
@@ -852,6 +1177,8 @@ static void generate(Plan &p, Rng &r) {
 	auto bump = [&](int code, int w) { for (auto &x : ws) if (x.code == code) x.w = w; };
 	if (prop == "C18") { bump(OP_WATERMARK, 12); bump(OP_POLICY, 10); }
 	if (prop == "C19") { bump(OP_FREE, 4); bump(OP_SETCB_NULL, 3); bump(OP_PEER_SHUTDOWN, 4); bump(OP_PEER_RESET, 3); bump(OP_FLUSH, 5); bump(OP_SHUTDOWN_WR, 4); }
+	if (prop == "C22") { ws.push_back({OP_RATELIMIT, 10}); ws.push_back({OP_GROUP, 8}); ws.push_back({OP_DECREMENT, 4}); ws.push_back({OP_MAXSINGLE, 4}); bump(OP_ADVANCE, 8); bump(OP_WRITE, 24); bump(OP_LOOP, 20); }
+	if (prop == "C44") { ws.push_back({OP_LISTENER, 14}); ws.push_back({OP_CLIENT_BURST, 12}); bump(OP_WRITE, 4); bump(OP_PEER_SEND, 2); }
 	if (prop == "C20") { bump(OP_TIMEOUTS, 10); bump(OP_ADVANCE, 8); bump(OP_WATERMARK, 5); bump(OP_PEER_PAUSE, 5); }
 	int total = 0;
 	for (auto &x : ws) total += x.w;
@@ -873,8 +1200,14 @@ static void generate(Plan &p, Rng &r) {
 		case OP_TIMEOUTS: o.a[1] = r.chance(0.3) ? 0 : r.pick(std::vector<int64_t>{1000, 10000, 250000, 3000000}); o.a[2] = r.chance(0.3) ? 0 : r.pick(std::vector<int64_t>{1000, 10000, 250000, 3000000}); break;
 		case OP_FLUSH: o.a[1] = r.range(1, 3); o.a[2] = r.below(3); break;
 		case OP_LOOP: o.a[0] = r.below(30); o.a[1] = r.chance(0.5) ? 0 : r.pick(std::vector<int64_t>{100, 5000, 300000, 5000000}); o.a[2] = r.below(2); break;
-		case OP_ADVANCE: o.a[0] = r.pick(std::vector<int64_t>{1, 999, 1000, 9999, 10000, 250000, 3000001}); break;
+		case OP_ADVANCE: o.a[0] = r.pick(std::vector<int64_t>{1, 999, 1000, 9999, 10000, 250000, 3000001}); if (prop == "C22" && r.chance(0.15)) o.a[1] = r.pick(std::vector<int64_t>{-5000, -50, 50, 5000, 100000}); break;
 		case OP_PEER_PAUSE: o.a[1] = r.below(2); break;
+		case OP_RATELIMIT: o.a[1] = r.chance(0.1) ? 0 : r.pick(std::vector<int64_t>{1, 100, 1000, 5000, 100000}); o.a[2] = o.a[1] * r.range(1, 5); o.a[3] = r.pick(std::vector<int64_t>{1, 100, 1000, 5000, 100000}); o.a[4] = o.a[3] * r.range(1, 5); o.a[5] = r.pick(std::vector<int64_t>{1, 10, 50, 1000}); break;
+		case OP_GROUP: o.a[0] = r.below(2); o.a[1] = r.below(4); o.a[2] = r.pick(std::vector<int64_t>{0, 1, 2, 3, 100, 1000, 20000}); o.a[3] = o.a[2] * r.range(1, 4); o.a[4] = r.pick(std::vector<int64_t>{1, 10, 50, 1000}); break;
+		case OP_DECREMENT: o.a[1] = r.below(2); o.a[2] = r.chance(0.2) ? -(int64_t)r.below(5000) : (int64_t)r.below(20000); break;
+		case OP_MAXSINGLE: o.a[1] = r.below(2); o.a[2] = r.pick(std::vector<int64_t>{0, 1, 7, 100, 4096, 70000}); break;
+		case OP_LISTENER: o.a[0] = r.below(7) == 6 && r.chance(0.7) ? r.below(6) : r.below(7); o.a[1] = r.below(6); break;
+		case OP_CLIENT_BURST: o.a[0] = r.below(21); break;
 		default: break;
 		}
 		p.ops.push_back(o);
